@@ -29,7 +29,9 @@ CONSTANTS FAdd(_, _), FSub(_, _), FMul(_, _), FNeg(_), FInv(_), FInt(_),
           AdvMode       \* "honest": the implementation's witness generation;
                         \* "closing-first": an adversarial generator for the range gadget
                         \* that satisfies the closing equalities and lets the digit
-                        \* constraints absorb the overflow (used to derive override maps)
+                        \* constraints absorb the overflow (used to derive override maps);
+                        \* "shift-split": closing-first, and the truncation split moved by
+                        \* one unit of 2^n from the high part into the low part
 
 Zero == FInt(0)
 One == FInt(1)
@@ -173,7 +175,7 @@ RangeCheckEven(st, w, bits) ==
         nq == ng * 4
         pad == 1 + (((nq * 2) - bits) \div 2)
         r == RangeAccs(st, V(st, w), bits \div 2,
-                       IF AdvMode = "closing-first" THEN FShr(V(st, w), bits) ELSE Zero, << >>)
+                       IF AdvMode # "honest" THEN FShr(V(st, w), bits) ELSE Zero, << >>)
         acc(i) == r.ws[i - pad + 1]                       \* i \in pad..nq
         \* slot i sits in gate (i div 4), wire D,C,B,A for i mod 4 = 0,1,2,3
         wire(g, m) == LET i == 4 * g + m IN IF i >= pad /\ i <= nq THEN acc(i) ELSE ZERO
@@ -189,7 +191,7 @@ RangeCheck(st, w, bits) ==
   ELSE
     LET top == bits - 1
         x == V(st, w)
-        s1 == Alloc(st, IF AdvMode = "closing-first"
+        s1 == Alloc(st, IF AdvMode # "honest"
                         THEN FSub(x, FMul(FInt(FBit(x, top)), FPow2(top)))   \* x with bit `top` cleared
                         ELSE FLow(x, top))
         lower == Last(s1)
@@ -228,7 +230,8 @@ AssertCanonicalTruncation(st, high, low, nbits) ==
 
 BindTruncationSplit(st, input, low, nbits) ==
   LET hb == NB - nbits
-      s1 == Alloc(st, FShr(V(st, input), nbits))
+      h0 == FShr(V(st, input), nbits)
+      s1 == Alloc(st, IF AdvMode = "shift-split" /\ h0 # Zero THEN FSub(h0, One) ELSE h0)
       high == Last(s1)
       s2 == RangeCheck(s1, high, hb)
       r3 == GateAdd(s2, FPow2(nbits), One, Zero, Zero, high, low, ZERO)
@@ -236,7 +239,8 @@ BindTruncationSplit(st, input, low, nbits) ==
   IN AssertCanonicalTruncation(s4, high, low, nbits)
 
 Truncate(st, w, n) ==
-  LET s1 == Alloc(st, FLow(V(st, w), n))
+  LET l0 == FLow(V(st, w), n)
+      s1 == Alloc(st, IF AdvMode = "shift-split" /\ FShr(V(st, w), n) # Zero THEN FAdd(l0, FPow2(n)) ELSE l0)
       low == Last(s1)
       s2 == RangeCheck(s1, low, n)
   IN [st |-> BindTruncationSplit(s2, w, low, n), ret |-> low]
